@@ -38,8 +38,9 @@ PROPS["C07"] = dict(
 )
 
 PROPS["C10"] = dict(
-    modules=["Proofs.C10"],
-    theorems=['Goflow.C10.parser_table_matches', 'Goflow.C10.guards_cover_indices', 'Goflow.C10.encap_preserves_outer', 'Goflow.C10.icmp_terminal', 'Goflow.C10.icmp_first_only', 'Goflow.C10.encap_rule', 'Goflow.C10.encap_monotone', 'Goflow.C10.layer_sizes'],
+    modules=["Proofs.C10", "Proofs.C10Full"],
+    theorems=['Goflow.C10.parser_table_matches', 'Goflow.C10.guards_cover_indices', 'Goflow.C10.encap_preserves_outer', 'Goflow.C10.icmp_terminal', 'Goflow.C10.icmp_first_only', 'Goflow.C10.encap_rule', 'Goflow.C10.encap_monotone', 'Goflow.C10.layer_sizes',
+              'Goflow.C10.full_capture', 'Goflow.C10.full_capture_cfg', 'Goflow.C10.full_capture_plain', 'Goflow.C10.full_capture_v6ext', 'Goflow.C10.full_capture_mpls', 'Goflow.C10.full_capture_tunnel', 'Goflow.C10.parseLoop_mono'],
     generators=[dict(name="C10", quick=150, thorough=10000)],
     harness=["impl"],
 )
@@ -52,8 +53,9 @@ PROPS["C06"] = dict(
 )
 
 PROPS["C08"] = dict(
-    modules=["Proofs.C08"],
-    theorems=['Goflow.C08.cases_match', 'Goflow.C08.decodeUNumber_eq', 'Goflow.C08.decodeUNumber_long', 'Goflow.C08.decodeUNumberLE_eq', 'Goflow.C08.writeDecoded_trunc', 'Goflow.C08.full_value', 'Goflow.C08.v9_time', 'Goflow.C08.ipfix_time', 'Goflow.C08.v5_sampling_14bit', 'Goflow.C08.v5_record_eq_ref'],
+    modules=["Proofs.C08", "Proofs.C08Full"],
+    theorems=['Goflow.C08.cases_match', 'Goflow.C08.decodeUNumber_eq', 'Goflow.C08.decodeUNumber_long', 'Goflow.C08.decodeUNumberLE_eq', 'Goflow.C08.writeDecoded_trunc', 'Goflow.C08.full_value', 'Goflow.C08.v9_time', 'Goflow.C08.ipfix_time', 'Goflow.C08.v5_sampling_14bit', 'Goflow.C08.v5_record_eq_ref',
+              'Goflow.C08.record_eq_ref', 'Goflow.C08.convertFields_record_eq_ref', 'Goflow.C08.packet_eq_ref', 'Goflow.C08.recordOK_of_check', 'Goflow.C08.apply_cases'],
     generators=[dict(name="C08", quick=400, thorough=40000)],
     harness=["impl"],
 )
